@@ -34,6 +34,17 @@ var nesters = []struct {
 func HostileHTML(r *rand.Rand, depth int) Hostile {
 	class := ""
 	var b strings.Builder
+	if r.Intn(8) == 0 {
+		// one kind of indenting container nested far deeper than any terminal is wide (80..160 levels, about 2-3 KB)
+		k := []int{0, 1, 1, 4}[r.Intn(4)]
+		d := 80 + r.Intn(81)
+		b.WriteString(strings.Repeat(nesters[k].open, d))
+		b.WriteString([]string{"two words", "<hr>", "a <b>few</b> more words here", "<img src=\"https://x.example/i\" alt=\"alt text\">"}[r.Intn(4)])
+		if r.Intn(2) == 0 {
+			b.WriteString(strings.Repeat(nesters[k].close, d))
+		}
+		return Hostile{Markup: "html", MediaType: "text/html", Text: b.String(), Class: "nest+pure", Depth: d}
+	}
 	switch x := r.Intn(10); {
 	case x < 5:
 		// D nested indenting blocks around a payload
